@@ -37,6 +37,18 @@ Theorem varint_decode_bounds :
     1 <= n <= blen buf /\ 0 <= v < 2 ^ 64.
 Proof. exact varint_decode_bounds_l. Qed.
 
+(* framing is unambiguous: distinct values never share an encoding, and a stream that starts with
+   an encoded value determines both that value and the remainder (no encoding is a proper prefix
+   of another followed by more bytes) *)
+Theorem varint_enc_injective :
+  forall a b, 0 <= a < 2 ^ 64 -> 0 <= b < 2 ^ 64 -> enc a = enc b -> a = b.
+Proof. exact varint_enc_injective_l. Qed.
+
+Theorem varint_prefix_free :
+  forall a b r1 r2, 0 <= a < 2 ^ 64 -> 0 <= b < 2 ^ 64 ->
+    enc a ++ r1 = enc b ++ r2 -> a = b /\ r1 = r2.
+Proof. exact varint_prefix_free_l. Qed.
+
 (* non-vacuity: the hypotheses are met by concrete non-trivial inputs, and both outcomes occur *)
 Example c27_witness :
   dec (enc 67824) = Some (67824, 4) /\ enc 18446744073709551615 = [255;255;255;255;255;255;255;255;255]
@@ -49,6 +61,8 @@ Check varint_len_matches : forall v, 0 <= v < 2 ^ 64 -> blen (enc v) = varint_le
 Check varint_encode_no_panic : forall v buf, 0 <= v < 2 ^ 64 -> varint_len v <= blen buf -> encode_varint_safe v buf = true.
 Check varint_decode_no_panic : forall buf, bytes_ok buf = true -> decode_varint_safe buf = true.
 Check varint_decode_bounds : forall buf v n, bytes_ok buf = true -> decode_varint buf = Some (v, n) -> 1 <= n <= blen buf /\ 0 <= v < 2 ^ 64.
+Check varint_enc_injective : forall a b, 0 <= a < 2 ^ 64 -> 0 <= b < 2 ^ 64 -> enc a = enc b -> a = b.
+Check varint_prefix_free : forall a b r1 r2, 0 <= a < 2 ^ 64 -> 0 <= b < 2 ^ 64 -> enc a ++ r1 = enc b ++ r2 -> a = b /\ r1 = r2.
 
 Print Assumptions varint_roundtrip.
 Print Assumptions varint_decode_prefix.
@@ -56,3 +70,5 @@ Print Assumptions varint_len_matches.
 Print Assumptions varint_encode_no_panic.
 Print Assumptions varint_decode_no_panic.
 Print Assumptions varint_decode_bounds.
+Print Assumptions varint_enc_injective.
+Print Assumptions varint_prefix_free.
